@@ -61,6 +61,17 @@ struct LenLex {  // custom stateless comparator: shorter strings first, then lex
   bool operator()(const std::string& a, const std::string& b) const { return a.size() != b.size() ? a.size() < b.size() : a < b; }
 };
 
+// comparator WITH state: the instance given to the sketch orders descending, a default-constructed one ascending - any place that
+// compares with C() instead of the instance it was given mixes two orders
+struct DirCmp {
+  bool desc = false;
+  DirCmp() = default;
+  explicit DirCmp(bool d): desc(d) {}
+  bool operator()(int64_t a, int64_t b) const { return desc ? b < a : a < b; }
+};
+template <typename C> struct CompInstance { static C make() { return C(); } static const char* name() { return "stateless"; } };
+template <> struct CompInstance<DirCmp> { static DirCmp make() { return DirCmp(true); } static const char* name() { return "stateful-descending-instance"; } };
+
 template <typename T> struct ItemOps;
 template <> struct ItemOps<float> {
   static const bool floating = true;
@@ -100,9 +111,9 @@ template <> std::string show<std::string>(const std::string& v) { return "'" + v
 
 // ------------------------------------------------------------------ families
 template <int F, typename T, typename C> struct SkOf;
-template <typename T, typename C> struct SkOf<F_KLL, T, C> { using type = kll_sketch<T, C>; static type make(uint16_t k, bool) { return type(k); } };
-template <typename T, typename C> struct SkOf<F_REQ, T, C> { using type = req_sketch<T, C>; static type make(uint16_t k, bool hra) { return type(k, hra); } };
-template <typename T, typename C> struct SkOf<F_CLS, T, C> { using type = quantiles_sketch<T, C>; static type make(uint16_t k, bool) { return type(k); } };
+template <typename T, typename C> struct SkOf<F_KLL, T, C> { using type = kll_sketch<T, C>; static type make(uint16_t k, bool, const C& c) { return type(k, c); } };
+template <typename T, typename C> struct SkOf<F_REQ, T, C> { using type = req_sketch<T, C>; static type make(uint16_t k, bool hra, const C& c) { return type(k, hra, c); } };
+template <typename T, typename C> struct SkOf<F_CLS, T, C> { using type = quantiles_sketch<T, C>; static type make(uint16_t k, bool, const C& c) { return type(k, c); } };
 
 // legal k values per family (KLL 8..65535, REQ even 4..1024, classic powers of two 2..32768); index from the case
 uint16_t k_from(int fam, uint64_t sel) {
@@ -143,7 +154,7 @@ struct Runner {
   using IO = ItemOps<T>;
   struct Entry { T item; uint64_t w; };
 
-  C comp;
+  C comp = CompInstance<C>::make();
   std::vector<Sk> sk;
   std::vector<std::vector<T>> model;   // per slot: accepted items, always sorted by comp
   std::vector<uint16_t> kreq;          // requested k per slot
@@ -511,7 +522,7 @@ struct Runner {
     }
   }
   void recreate(int s) {
-    sk[s] = SkOf<F, T, C>::make(kreq[s], hra[s]);
+    sk[s] = SkOf<F, T, C>::make(kreq[s], hra[s], comp);
     model[s].clear();
     check_config(s);
   }
@@ -526,7 +537,7 @@ struct Runner {
       const uint64_t sel = static_cast<uint64_t>(cs.get(ksame ? "k0" : "k" + std::to_string(s), 0));
       kreq.push_back(k_from(F, sel));
       hra.push_back(F == F_REQ && s == NS - 1 && (cs.get("mixhra", 1) & 3) == 0 ? !hra0 : hra0);  // sometimes one sketch of the other mode
-      sk.push_back(SkOf<F, T, C>::make(kreq[s], hra[s]));
+      sk.push_back(SkOf<F, T, C>::make(kreq[s], hra[s], comp));
       model.emplace_back();
     }
     for (int s = 0; s < NS; ++s) { check_config(s); check(s, "construction", seed + s, 0, 0, false); }
@@ -594,6 +605,7 @@ struct Runner {
     // coverage
     vf::label(std::string("fam:") + fam_name(F));
     vf::label(std::string("type:") + IO::name());
+    vf::label(std::string("comparator:") + CompInstance<C>::name());
     if (F == F_REQ) vf::label(hra0 ? "req-hra" : "req-lra");
     if (merged_est) vf::label("merge-estimating");
     if (merged_exact) vf::label("merge-exact-exact");
@@ -619,7 +631,8 @@ struct Runner {
 };
 
 template <int F> void dispatch_type(const Case& cs, bool every) {
-  switch (cs.get("type", 0) & 3) {
+  switch (cs.get("type", 0) % 5) {
+    case 4: { Runner<F, int64_t, DirCmp> r; r.run(cs, every); break; }
     case 0: { Runner<F, float, std::less<float>> r; r.run(cs, every); break; }
     case 1: { Runner<F, double, std::greater<double>> r; r.run(cs, every); break; }
     case 2: { Runner<F, int64_t, std::less<int64_t>> r; r.run(cs, every); break; }
@@ -777,7 +790,7 @@ rc::Gen<int64_t> ksel_small() { return rc::gen::weightedOneOf<int64_t>({{6, vf::
 
 std::vector<std::pair<std::string, rc::Gen<int64_t>>> cfg_gens(rc::Gen<int64_t> ksel) {
   using namespace vf;
-  return {{"fam", range(0, 2)}, {"type", range(0, 3)}, {"seed", range(1, 1 << 30)}, {"hra", range(0, 1)}, {"mixhra", range(0, 3)}, {"ksame", range(0, 1)},
+  return {{"fam", range(0, 2)}, {"type", range(0, 4)}, {"seed", range(1, 1 << 30)}, {"hra", range(0, 1)}, {"mixhra", range(0, 3)}, {"ksame", range(0, 1)},
           {"k0", ksel}, {"k1", ksel}, {"k2", ksel}, {"k3", ksel}};
 }
 
